@@ -3,7 +3,7 @@
 use proptest::prelude::*;
 use serde_json::json;
 
-use crate::api::{observe, text, ICowB, ICowO, ISmall, IStr, ParseInst};
+use crate::api::{observe, ICowB, ICowO, ISmall, IStr, ParseInst};
 use crate::buildprog::{gprogram, run, Op, Outcome};
 use crate::chars::is_valid_type;
 use crate::engine::{guard, Enumerated, Random, Section, Stats, Tier};
